@@ -9,7 +9,7 @@ Local Open Scope Z_scope.
 
 Inductive lev :=
 | LHeaders (a : Z) | LReady (a : Z) | LFinished (a : Z) | LWritten (n : Z)
-| LRead (b : bytes) | LTx (b : bytes) | LClose | LAvail (a : Z) | LSnap | LDisc | LMark (k : Z) | LBad.
+| LRead (b : bytes) | LTx (b : bytes) | LClose | LAvail (a : Z) | LSnap | LDisc | LMark (k : Z) | LNote (v : value) | LBad.
 
 Definition dec_lev (v : value) : lev :=
   match v with
@@ -24,6 +24,7 @@ Definition dec_lev (v : value) : lev :=
   | VL (VI 8 :: _) => LSnap
   | VL [VI 9] => LDisc
   | VL [VI 20; VI k] => LMark k
+  | VL [VI 30; v'] => LNote v'
   | _ => LBad
   end.
 
@@ -35,6 +36,7 @@ Definition is_headers (e : lev) : bool := match e with LHeaders _ => true | _ =>
 Definition is_finished (e : lev) : bool := match e with LFinished _ => true | _ => false end.
 Definition is_snap (e : lev) : bool := match e with LSnap => true | _ => false end.
 Definition is_close (e : lev) : bool := match e with LClose => true | _ => false end.
+Definition is_note (e : lev) : bool := match e with LNote _ => true | _ => false end.
 Definition count (f : lev -> bool) (l : list lev) : nat := List.length (filter f l).
 
 Definition wire_of (l : list lev) : bytes :=
@@ -65,6 +67,9 @@ Definition op_is_passive (o : op) : bool :=
   | App a => aop_is_read a
   | _ => false
   end.
+
+Definition dummy_request : request :=
+  {| q_method := GET; q_raw := []; q_path := []; q_query := []; q_headers := [] |}.
 
 (* ------------------------------------------------------------------ C02 *)
 
@@ -120,7 +125,7 @@ Definition chk_C02 (c o : value) : bool :=
           let dom :=
             (0 <=? n) && (0 <=? headlen) &&
             match find_sub CRLFCRLF fed with Some i => Z.of_nat i =? headlen | None => false end &&
-            forallb aop_is_read (on_headers pl ++ on_ready pl ++ on_finished pl) &&
+            forallb aop_is_read (on_headers pl dummy_request ++ on_ready pl ++ on_finished pl) &&
             forallb op_is_passive ops && last_is_drain ops &&
             existsb (fun o => match o with Construct => true | _ => false end) ops in
           if negb dom then true
@@ -233,7 +238,8 @@ Definition clean_reason (r : option bytes) : bool :=
 Definition aop_clean (a : aop) : bool :=
   match a with
   | ASetStatus c r => clean_reason r && (0 <=? c)
-  | ASetHeader n v _ => clean_name n && clean_value v
+  | ASetHeader n v rep => clean_name n && clean_value v &&
+                          (rep || negb (Nat.eqb (List.length v) 0))   (* an appended value is non-empty *)
   | ASetHeaders l => forallb (fun kv => clean_name (fst kv) && clean_value (snd kv)) l
   | AWriteError c r => clean_reason r && (0 <=? c)
   | AWriteRedirect p _ => clean_value p
@@ -378,7 +384,7 @@ Definition chk_C04 (c o : value) : bool :=
           else
             let l := dec_log o in
             negb (existsb is_bad l) &&
-            Nat.eqb (count is_headers l) 0 && Nat.eqb (count is_snap l) 0 &&
+            Nat.eqb (count is_headers l) 0 && Nat.eqb (count is_snap l) 0 && Nat.eqb (count is_note l) 0 &&
             Nat.eqb (count is_close l) 1 && no_tx_after_close l false &&
             match parse_wire (wire_of l) with
             | Some (code, _, hs, body) =>
